@@ -18,5 +18,16 @@ for n in $names; do
   done
   git -C /repo checkout -- .
   echo "$line"
-done | tee seeded/MATRIX.txt
+done | tee seeded/MATRIX.part
+python3 - <<'PY'
+import os
+rows = {}
+for f in ("/verif/seeded/MATRIX.txt", "/verif/seeded/MATRIX.part"):
+    if os.path.exists(f):
+        for ln in open(f):
+            if "|" in ln:
+                rows[ln.split("|")[0].strip()] = ln.rstrip("\n")
+open("/verif/seeded/MATRIX.txt", "w").write("\n".join(rows[k] for k in sorted(rows)) + "\n")
+os.remove("/verif/seeded/MATRIX.part")
+PY
 git checkout -q -- evidence 2>/dev/null; rm -f /verif/replay/*.json
